@@ -50,7 +50,9 @@ Next ==
                 xq == IF /\ e.ev = "RecvRet" /\ e.res = "none" /\ sc.drv = "d1"
                          /\ st.q.call[e.t + 1].start > st.c.lastSend
                          /\ st.q.unb - st.q.empt <= 0
-                         /\ C!SomethingQueued(st.c, sc)
+                         \* (a request taken by another call that has not returned yet still counts as queued here:
+                         \*  every other receive call in progress may be holding one)
+                         /\ C!QueuedCount(st.c, sc) > Cardinality(Q!Blocked(st.q) \ {e.t + 1})
                       THEN <<[p |-> "C07", g |-> "QueuedRequestNotReturned"]>> ELSE <<>>
                 \* C07 (virtual time only, queue families): "no request stays queued while a receiver remains
                 \* blocked" -- the clock only moves when every thread is blocked, so when a request is handed over,
